@@ -61,3 +61,12 @@ Example C04_out_of_range_index_accepted :
   let h := fun x : bytes => firstn 2 (x ++ [x00; x00]) in
   s_recompute h [x07] 2 (s_path h 2 [[x07]; [x08]] 0) = s_root h 2 [[x07]; [x08]].
 Proof. vm_compute. reflexivity. Qed.
+
+(* ---- tie to the source: the integer literals of the functions this property's model stands for
+   (private constants, bounds, unit factors; the files are SiteMap.files_C04) are today the ones the
+   model was written against. Gen/Sites.v num_literals is regenerated from /repo on every run; a
+   changed, added or removed number in a modelled function breaks this obligation ---- *)
+Require RV.Gen.Sites RV.Model.SiteMap.
+Theorem C04_literals_reviewed : RV.Model.SiteMap.literals_ok RV.Model.SiteMap.files_C04.
+Proof. repeat constructor. Qed.
+Print Assumptions C04_literals_reviewed.
